@@ -19,6 +19,7 @@ func propC11(c *Ctx) {
 	c.R.Explanation = "Decides (a) that the context table encoded in package directive (kinds, spellings, root set, parent->children relation, HTTP-method set) equals the frozen reference table of JSight API 0.3, pair by pair; (b) the control structure of the resolution algorithm: one context cursor, attach only under the allowed-lookup, silent walk-up only from implicit contexts, explicit contexts reject, method-with-Path under an implicit URL starts a new root, ')' closes the innermost explicit context and errors at nil; (c) parenthesis events in the scanner. Not decided: the verdict for each concrete directive sequence (the product of table and algorithm is not enumerated)."
 	t := c.Tables()
 	c.ruleC11Table(t)
+	c.ruleAccessorFaithful("C11-ACCESSOR-FAITHFUL")
 	c.ruleC11WalkUp()
 	c.ruleC11Close()
 	c.ruleC10CopyReset() // the paste pass re-runs the same context resolution on copies
@@ -587,22 +588,71 @@ func (c *Ctx) ruleC11Close() {
 	} else {
 		r.Undecided("C11-CLOSE", "single open", "processContextBegin not found", "")
 	}
-	// HasUnclosedExplicitContext walks the parent chain
+	// HasUnclosedExplicitContext walks the parent chain to its end: it may say "nothing is open" only when the walk has
+	// reached nil, and "something is open" only at a directive whose HasExplicitContext is set
 	if g := c.fn("core", "JApiCore.HasUnclosedExplicitContext"); g != nil {
-		sawFlag, sawParent := false, false
+		pk := g.Pkg
+		cf := c.cfgOf(g)
+		// the walk variables: locals stepped by x = x.Parent
+		walk := map[types.Object]bool{}
 		ast.Inspect(g.Decl.Body, func(n ast.Node) bool {
-			if sel, ok := n.(*ast.SelectorExpr); ok {
-				if fld := fieldSel(g.Pkg, sel); fld != nil {
-					sawFlag = sawFlag || fld.Name() == "HasExplicitContext"
-					sawParent = sawParent || fld.Name() == "Parent"
+			if as, ok := n.(*ast.AssignStmt); ok && len(as.Lhs) == 1 && len(as.Rhs) == 1 {
+				if fld := fieldSel(pk, as.Rhs[0]); fld != nil && fld.Name() == "Parent" {
+					if id := identOf(as.Lhs[0]); id != nil && accessPath(pk, as.Lhs[0]) == accessPath(pk, as.Rhs[0].(*ast.SelectorExpr).X) {
+						walk[objOf(pk, id)] = true
+					}
 				}
 			}
 			return true
 		})
-		if sawFlag && sawParent {
-			r.Ok("C11-CLOSE", "open-context scan", "HasUnclosedExplicitContext tests HasExplicitContext along the Parent chain", c.pos(g.Decl.Pos()))
-		} else {
-			r.Bad("C11-CLOSE", "open-context scan", "HasUnclosedExplicitContext does not walk the Parent chain testing HasExplicitContext", c.pos(g.Decl.Pos()))
+		atNil := func(cond ast.Expr, holds bool) bool {
+			be, ok := ast.Unparen(cond).(*ast.BinaryExpr)
+			if !ok || (be.Op != token.EQL && be.Op != token.NEQ) || !isNil(pk, be.Y) {
+				return false
+			}
+			id := identOf(be.X)
+			return id != nil && walk[pk.TypesInfo.Uses[id]] && (be.Op == token.EQL) == holds
+		}
+		isOpen := func(cond ast.Expr, holds bool) bool {
+			fld := fieldSel(pk, cond)
+			if fld == nil || fld.Name() != "HasExplicitContext" || !holds {
+				return false
+			}
+			id := identOf(ast.Unparen(cond).(*ast.SelectorExpr).X)
+			return id != nil && walk[pk.TypesInfo.Uses[id]]
+		}
+		bad := ""
+		nRet := 0
+		ast.Inspect(g.Decl.Body, func(n ast.Node) bool {
+			ret, ok := n.(*ast.ReturnStmt)
+			if !ok || len(ret.Results) != 1 {
+				return true
+			}
+			nRet++
+			tv := pk.TypesInfo.Types[ret.Results[0]]
+			switch {
+			case tv.Value != nil && tv.Value.String() == "false":
+				if !cf.establishedAt(ret, atNil, nil) {
+					bad = "it answers 'nothing is open' before the walk over the Parent chain has reached its end: an explicit context opened further up is not seen, and 'parenthesis not closed' is not reported at the end of the file"
+				}
+			case tv.Value != nil && tv.Value.String() == "true":
+				if !cf.establishedAt(ret, isOpen, nil) {
+					bad = "it answers 'something is open' at a directive whose HasExplicitContext was not tested"
+				}
+			default:
+				bad = "its result is not a plain true/false decided by the walk"
+			}
+			return true
+		})
+		switch {
+		case len(walk) == 0:
+			r.Bad("C11-CLOSE", "open-context scan", "HasUnclosedExplicitContext does not walk the Parent chain (no x = x.Parent step)", c.pos(g.Decl.Pos()))
+		case bad != "":
+			r.Bad("C11-CLOSE", "open-context scan", "HasUnclosedExplicitContext: "+bad, c.pos(g.Decl.Pos()))
+		case nRet < 2:
+			r.Bad("C11-CLOSE", "open-context scan", "HasUnclosedExplicitContext does not decide both ways", c.pos(g.Decl.Pos()))
+		default:
+			r.Ok("C11-CLOSE", "open-context scan", "false only when the walk over the Parent chain reached nil; true only at a directive with HasExplicitContext", c.pos(g.Decl.Pos()))
 		}
 	}
 }
